@@ -430,6 +430,10 @@ def sd1(ctx, R):
         R.unrecognised("scaling._get_channel_scaling::dispatch", gcs.where(), "how scale type names select the scaling classes was not recognised")
     else:
         for k, v in expected.items():
+            if pairs.get(k) is None:
+                # the other names were recognised but this one's constructor was not (built behind a helper the table lookup does not see)
+                R.unrecognised("scaling._get_channel_scaling::%s" % k, gcs.where(), "what builds scale type %r was not recognised" % k)
+                continue
             R.check(pairs.get(k) == v, "scaling._get_channel_scaling::%s" % k, gcs.where(), "%s -> %s" % (k, v),
                     "scale type %r is built by %s (expected %s)" % (k, pairs.get(k), v))
 
